@@ -44,6 +44,20 @@ Proof.
   rewrite Z.land_spec, !Z.lnot_spec by lia. reflexivity.
 Qed.
 
+Lemma sum01_count : forall (l : list Z) (f : Z -> bool),
+  fold_right Z.add 0 (map (fun i => if f i then 1 else 0) l) = Z.of_nat (length (filter f l)).
+Proof.
+  induction l as [| x l IH]; intros f; simpl; [reflexivity |].
+  rewrite IH. destruct (f x); simpl length; lia.
+Qed.
+
+(* rig's _get_generality (regenerated each run) computes the specification's generality *)
+Theorem gen_of_spec : forall e, gen_of e = spec_generality e.
+Proof.
+  intros e. unfold gen_of, spec_generality. rewrite get_generality_popc. unfold popc, bits32z.
+  apply sum01_count.
+Qed.
+
 Lemma sum_map_le : forall (l : list Z) (f g : Z -> Z),
   (forall i, In i l -> f i <= g i) ->
   fold_right Z.add 0 (map f l) <= fold_right Z.add 0 (map g l).
